@@ -233,7 +233,7 @@ def main(tier, seed_):
                 stats.fail(f)
     if tier == "quick":
         n_greedy, n_smt = 1100, 60
-        temps = [t for t in catalogue.templates("quick") if t[0].split(":")[0] in ("bin", "un", "chain", "spec", "mem", "ter")]
+        temps = [t for t in catalogue.templates("quick") if t[0].split(":")[0] in ("bin", "un", "chain", "spec", "mem", "ter", "share")]
     else:
         n_greedy, n_smt = 40000, 2500
         temps = catalogue.templates("quick")
